@@ -32,7 +32,11 @@ class C09(Prop):
         d2 = {'policy': 'object', 'retain': True, 'init': [], 'mode': 'aexit',
               'members': [{'react': 'reraise', 'daemon': True}, {'react': 'reraise', 'daemon': True}],
               'actions': [['tick'], ['start']] + [['tick']] * 40}
-        return [f11, f12, f12b, d1, d2]
+        # big groups (a cancellation loop that pauses every so many members has to survive the members it has already cancelled finishing)
+        big = [{'policy': 'all', 'mode': mode, 'members': [{'react': 'reraise', 'daemon': i % 9 == 8} for i in range(nm)],
+                'actions': [['start']] + [['tick']] * 12 + ([['finish', 1, ['exc']]] if mode == 'join' else []) + [['tick']] * 60}
+               for nm in (33, 70, 130) for mode in ('aexit_exc', 'join')]
+        return [f11, f12, f12b, d1, d2] + big
 
     def generate(self, rng, n, tier):
         for _ in range(n):
